@@ -95,6 +95,28 @@ def scan_trusted(text):
     return out
 
 
+def _local(sp):
+    """the span (or the macro call site it expands from) inside the assembled unit, else None"""
+    seen = 0
+    while sp is not None and seen < 8:
+        if sp.get('file_name', '').endswith('unit.rs'):
+            return sp
+        ex = sp.get('expansion')
+        sp = ex.get('span') if ex else None
+        seen += 1
+    return None
+
+
+def spans_of(d):
+    prim, sec = [], []
+    for sp in d.get('spans', []):
+        loc = _local(sp)
+        if loc is None:
+            continue
+        (prim if sp.get('is_primary') else sec).append(loc)
+    return prim, sec
+
+
 def classify(msg):
     for rx, kind in SEMANTIC:
         if rx.search(msg):
@@ -201,11 +223,14 @@ def run_unit(unit, repo='/repo', tier='quick', seed=0):
         msg = d.get('message', '')
         if msg.startswith('aborting due to'):
             continue
-        prim = [s for s in d.get('spans', []) if s.get('is_primary')] or d.get('spans', [])
+        prim, sec = spans_of(d)
+        if not prim and sec:
+            # the failed clause lives outside the unit (e.g. the `requires false` of a panic macro in vstd)
+            prim = sec
         line = prim[0]['line_start'] if prim else 0
-        # for postconditions the primary span is the ensures clause; the secondary one the return site
-        sec = [s for s in d.get('spans', []) if not s.get('is_primary')]
         kind = classify(msg)
+        if kind == 'precondition' and prim and prim[0].get('text') and re.search(r'\b(unimplemented|unreachable|panic|todo)!', prim[0]['text'][0].get('text', '')):
+            kind = 'unreachable-panic'
         if kind is None or d.get('code'):
             if TOOL_LIMIT.search(msg):
                 hard.append('rlimit: %s @%s in %s' % (msg, origin(line), fn_at(line)))
@@ -279,8 +304,9 @@ def run_unit(unit, repo='/repo', tier='quick', seed=0):
                 k = classify(d.get('message', ''))
                 if k is None:
                     continue
-                prim = [s for s in d.get('spans', []) if s.get('is_primary')] or d.get('spans', [])
-                sec = [s for s in d.get('spans', []) if not s.get('is_primary')]
+                prim, sec = spans_of(d)
+                if not prim and sec:
+                    prim = sec
                 ol = (sec[0]['line_start'] if (k in ('precondition', 'postcondition') and sec) else (prim[0]['line_start'] if prim else 0))
                 again.add((fn_at(ol), origin(ol)))
             stable = set(o for o in stable if any(o.split('::')[1:-1] == fn.split('::') or ('::' + fn + '::') in o for fn, _ in again))
